@@ -30,7 +30,7 @@ def run(ctx):
     cases = []; pairs = []
     data = gen.jdump(INPUT)
     for i in range(n):
-        kind = rnd.choice(['set', 'set', 'preset', 'define', 'premacro', 'select_pos', 'pipe', 'pipe3', 'shadow'])
+        kind = rnd.choice(['set', 'set', 'preset', 'define', 'premacro', 'select_pos', 'pipe', 'pipe3', 'shadow', 'selref'])
         if kind in ('set', 'preset'):
             body = rnd.choice(BODIES); name = 's' if ':s' in body else 'x'
             val = rnd.choice(VALS[name])
@@ -67,6 +67,12 @@ def run(ctx):
             # expected: after the middle stage, ^ is the first stage's value and ^^ the original input
             sub = last.replace('^^.name', '§N').replace('^^', '§I').replace('^', first).replace('§N', '.name').replace('§I', '.')
             b = lib.new_cfg(select=['%s=r' % sub])
+        elif kind == 'selref':
+            # bindings are transparent for everything else an expression can see: the rows selected so far (/name/), the input, its parents
+            inner = rnd.choice(['/first/', '(concat /first/ "!")', '(push [] /first/ /second/ .a)', '(map .arr (+ . (default /second/ 0)))', '(| .arr (size ^))', '(default /nosuch/ /second/)'])
+            wrap = rnd.choice(['(set "x" 5 %s)', '(set "x" /first/ (push [] :x %s))'.replace('(push [] :x %s)', '%s'), '(define "m" .a %s)', '(set "x" 1 (set "y" 2 %s))', '(define "m" /first/ (set "z" 0 %s))'])
+            a = lib.new_cfg(select=['.name=first', '.a=second', (wrap % inner) + '=r'])
+            b = lib.new_cfg(select=['.name=first', '.a=second', inner + '=r'])
         elif kind == 'shadow':
             m1, m2 = rnd.sample(MACROS, 2)
             if rnd.random() < 0.5: a = lib.new_cfg(select=['(define "m" %s (push [] @m (define "m" %s @m) @m))=r' % (m1, m2)])
@@ -92,7 +98,8 @@ def run(ctx):
             rel = {'set': '(set n v e) evaluates e as if every :n in scope were replaced by v', 'preset': '--set n=v evaluates e as if every :n were replaced by v',
                    'define': '(define n m e) evaluates e as if every @n in scope were replaced by the macro body', 'premacro': '--set @n=m evaluates e as if every @n were replaced by the macro body',
                    'select_pos': 'every --select sees the same input and parents as the first one', 'pipe3': '(| a b c): c sees b\'s value as input and a\'s value as its parent, also when b returns its input unchanged',
-                   'shadow': 'an inner (define n ..) shadows an outer binding of n inside its body only'}[kind]
+                   'shadow': 'an inner (define n ..) shadows an outer binding of n inside its body only',
+                   'selref': 'a binding that is not used changes nothing: the body sees the same selected rows (/name/), input and parents'}[kind]
             violations.append(viol(ca, cb, rel, json.dumps(ra)[:400], json.dumps(rb)[:400]))
     known = []
     for k in ctx['known']:
